@@ -3,10 +3,26 @@
 
     enc.reuse <op> { ' ; ' <op> }
         op := 'C'                         Clear
-            | 'B'                         Bytes (no effect)
+            | 'B'                         Bytes
             | 'E' <dyn id> <tag> <val>    encode (Val syntax and tag convention of `plan.enc`)
       one binary encoder (`NewTTLVEncoder`) runs the whole history from new;
       → ok <hex of Bytes() at the end> | panic   (an encode failed since the last Clear: the buffer is junk)
+
+    enc.hist <be> <op> { ' ; ' <op> }
+        be := 'ttlv' | 'xml' | 'json' | 'text'
+        op := 'C' | 'B'
+            | 'E' <dyn id> <tag> <val> [ '!' <cell> <call>… ]     typed encode; after '!': what the call did before
+                                                                  it panicked (used only if the model's codec fails)
+            | 'W' <call>… [ '!' ]                                 the writer API used directly; '!': then a panic
+        call := '{'<tag>  (Struct begins)  |  '}'  (Struct ends)  |  a scalar item in the tree syntax, e.g. (I 5505025 7)
+        cell := 'keep' | 'none' | <major>'.'<minor>
+      one encoder of that back end runs the whole history from new, on the writer-level model
+      (buffer with stale capacity, xml.Encoder state, frames);
+      → ok <flags> <out>{','<out>}      flags: one of 1/0 per op (returned normally / panicked);
+                                        out: hex of what each `B` returned, in order ('-' = empty; '_' if no B)
+      token texts: tag names from the regenerated registry, values of the scalar types the harness uses in
+      these lines (Integer, LongInteger, Enumeration, Boolean, ByteString, plain-ASCII TextString, Interval);
+      BigInteger / DateTime → `unsupported`.
 
     cache.run <sched> ' ; ' <req> { ' ; ' <req> }
         sched := '-' | <tid> {',' <tid>}          who moves next (Load / Build / nested call / Store steps);
@@ -18,7 +34,9 @@
 import Driver.Common
 import KmipModel.Model.Cache
 import KmipModel.Model.ValSyntax
+import KmipModel.Model.Registry
 import KmipModel.Gen.Schema
+import KmipModel.Gen.Registry
 open Kmip Kmip.Cache
 
 namespace Driver
@@ -36,6 +54,183 @@ def parseMsg (s : String) : Option Msg :=
     | _, _, _ => none
   | _ => none
 
+/-! ### token texts of the XML / JSON / text writers (the `Render` the driver answers with) -/
+
+def str (s : String) : Bytes := s.toUTF8.toList
+def ofChars (cs : List Nat) : Bytes := cs.map (·.toUInt8)
+
+def typeName : Nat → String
+  | 1 => "Structure" | 2 => "Integer" | 3 => "LongInteger" | 4 => "BigInteger" | 5 => "Enumeration"
+  | 6 => "Boolean" | 7 => "TextString" | 8 => "ByteString" | 9 => "DateTime" | 10 => "Interval"
+  | _ => "?"
+
+/-- registered with a non-empty name: the XML element is named after the tag. -/
+def xmlNamed (t : Nat) : Bool :=
+  match Reg.lookup t Gen.tagNames with
+  | some n => n != Reg.emptyName
+  | none => false
+
+def xmlElemName (t : Nat) : Bytes := if xmlNamed t then ofChars (Reg.tagToTextXml Gen.tagNames t) else str "TTLV"
+
+/-- `<Name` or `<TTLV tag="0x……"` -/
+def xmlOpenHead (t : Nat) : Bytes :=
+  if xmlNamed t then str "<" ++ xmlElemName t
+  else str "<TTLV tag=\"" ++ ofChars (Reg.tagToTextXml Gen.tagNames t) ++ str "\""
+
+def hexUpper (bs : Bytes) : Bytes := str (hexOfBytes bs)
+
+def lowerHexDigit (d : Nat) : UInt8 := (if d < 10 then 48 + d else 87 + d).toUInt8
+def hex16Lower (n : Nat) : Bytes := (List.range 16).map fun i => lowerHexDigit ((n >>> (4 * (15 - i))) % 16)
+
+/-- `time.Duration.String()` of a whole number of seconds. -/
+def durationString (secs : Nat) : String :=
+  let h := secs / 3600
+  let m := (secs % 3600) / 60
+  let s := secs % 60
+  if h > 0 then toString h ++ "h" ++ toString m ++ "m" ++ toString s ++ "s"
+  else if m > 0 then toString m ++ "m" ++ toString s ++ "s"
+  else toString s ++ "s"
+
+def enumText (tag v : Nat) : Bytes := ofChars (Reg.enumToText (Reg.enumByValue Gen.enums tag) v)
+
+def quoted (b : Bytes) : Bytes := [34] ++ b ++ [34]
+
+/-- value text; `none`: not rendered by this driver. -/
+def xmlValue : Item → Option Bytes
+  | .int _ v => some (str (toString v))
+  | .long _ v => some (str (toString v))
+  | .enum t v => some (enumText t v)
+  | .bool _ b => some (str (if b then "true" else "false"))
+  | .text _ s => some s
+  | .bytes _ s => some (hexUpper s)
+  | .interval _ v => some (str (toString v))
+  | _ => none
+
+def jsonValue : Item → Option Bytes
+  | .int _ v => some (str (toString v))
+  | .long _ v =>
+    if v ≥ 4503599627370496 ∨ v ≤ -4503599627370496 then some (quoted (str "0x" ++ hex16Lower (unsignedOfInt 64 v)))
+    else some (str (toString v))
+  | .enum t v => some (quoted (enumText t v))
+  | .bool _ b => some (str (if b then "true" else "false"))
+  | .text _ s => some (quoted s)
+  | .bytes _ s => some (quoted (hexUpper s))
+  | .interval _ v => some (str (toString v))
+  | _ => none
+
+def textValue : Item → Option Bytes
+  | .int _ v => some (str (toString v))
+  | .long _ v => some (str (toString v))
+  | .enum t v => some (enumText t v)
+  | .bool _ b => some (str (if b then "true" else "false"))
+  | .text _ s => some s
+  | .bytes _ s => some (hexUpper s)
+  | .interval _ v => some (str (durationString v))
+  | _ => none
+
+def supported (it : Item) : Bool := (xmlValue it).isSome
+
+def histR : Render where
+  xmlStart t := xmlOpenHead t ++ str ">"
+  xmlEnd t := str "</" ++ xmlElemName t ++ str ">"
+  xmlLeaf it := xmlOpenHead it.tag ++ str " type=\"" ++ str (typeName it.ty) ++ str "\" value=\""
+    ++ (xmlValue it).getD [] ++ str "\">"
+  xmlLeafEnd it := str "</" ++ xmlElemName it.tag ++ str ">"
+  jsonHead t ty := str "{\"tag\": \"" ++ ofChars (Reg.tagToText Gen.tagNames t)
+    ++ (if ty = 1 then [] else str "\", \"type\": \"" ++ str (typeName ty)) ++ str "\", \"value\": "
+  jsonVal it := (jsonValue it).getD []
+  textHead t ty := ofChars (Reg.tagToText Gen.tagNames t) ++ str " (" ++ str (typeName ty) ++ str "): "
+  textVal it := (textValue it).getD []
+
+/-! ### parsing histories -/
+
+def parseBackend : String → Option Backend
+  | "ttlv" => some .ttlv | "xml" => some .xml | "json" => some .json | "text" => some .text | _ => none
+
+/-- writer calls from tokens; `none` on a syntax error or an unsupported scalar. -/
+partial def parseCalls : List String → Option (List WCall)
+  | [] => some []
+  | "}" :: rest => (parseCalls rest).map (WCall.close :: ·)
+  | toks@("(" :: _) =>
+    match parseItem toks with
+    | some (it, rest) =>
+      match it with
+      | .struct .. => none
+      | _ => if supported it then (parseCalls rest).map (WCall.leaf it :: ·) else none
+    | none => none
+  | t :: rest =>
+    if t.startsWith "{" then
+      match (t.drop 1).toString.toNat? with
+      | some tag => (parseCalls rest).map (WCall.open tag :: ·)
+      | none => none
+    else none
+
+inductive CellSpec where
+  | keep | set (c : Option Ver)
+
+def parseCell (s : String) : Option CellSpec :=
+  if s = "keep" then some .keep
+  else if s = "none" then some (.set none)
+  else match s.splitOn "." with
+    | [a, b] => match a.toNat?, b.toNat? with
+      | some x, some y => some (.set (some (x, y)))
+      | _, _ => none
+    | _ => none
+
+/-- a parsed operation; the junk cell of an aborted typed encode may refer to the current state. -/
+inductive POp where
+  | clear | bytes
+  | raw (calls : List WCall) (abort : Bool)
+  | encode (m : Msg) (cell : CellSpec) (calls : List WCall)
+
+def parseHistOp (s : String) : Option POp :=
+  if s = "C" then some .clear
+  else if s = "B" then some .bytes
+  else if s.startsWith "W" then
+    let toks := tokenize (s.drop 1).toString
+    let abort := toks.getLast? == some "!"
+    let toks := if abort then toks.dropLast else toks
+    (parseCalls toks).map fun cs => .raw cs abort
+  else if s.startsWith "E " then
+    match (s.drop 2).toString.splitOn " ! " with
+    | [m] => (parseMsg m).map fun m => .encode m .keep []
+    | [m, j] =>
+      match tokenize j with
+      | c :: toks => do
+        let m ← parseMsg m
+        let c ← parseCell c
+        let cs ← parseCalls toks
+        pure (.encode m c cs)
+      | [] => none
+    | _ => none
+  else none
+
+def toOp (st : Encoder) : POp → Op
+  | .clear => .clear
+  | .bytes => .bytes
+  | .raw cs a => .raw cs a
+  | .encode m c cs => .encode m { cell := (match c with | .keep => st.cell | .set x => x), calls := cs }
+
+def renderHex (b : Bytes) : String := let h := hexOfBytes b; if h.isEmpty then "-" else h
+
+def encHist (arg : String) : String :=
+  match arg.splitOn " " with
+  | b :: _ =>
+    match parseBackend b with
+    | none => "bad-op"
+    | some be =>
+      match (splitSemi (arg.drop (b.length + 1)).toString).mapM parseHistOp with
+      | none => "unsupported"
+      | some ops =>
+        let r := ops.foldl (fun (acc : Encoder × List Obs) p =>
+          let s := stepOp histR Gen.schema acc.1 (toOp acc.1 p)
+          (s.1, s.2 :: acc.2)) (fresh be, [])
+        let obs := r.2.reverse
+        let flags := String.ofList (obs.map fun o => if o.ok then '1' else '0')
+        let outs := obs.filterMap fun o => o.out.map renderHex
+        "ok " ++ flags ++ " " ++ (if outs.isEmpty then "_" else ",".intercalate outs)
+  | [] => "bad-op"
+
 def parseOp (s : String) : Option Op :=
   if s = "C" then some .clear
   else if s = "B" then some .bytes
@@ -45,18 +240,19 @@ def parseOp (s : String) : Option Op :=
 /-- run the history; `dirty` = an encode failed since the last Clear. -/
 def runHistory (ops : List Op) : Encoder × Bool :=
   ops.foldl (fun (acc : Encoder × Bool) op =>
-    let r := stepOp Gen.schema .ttlv acc.1 op
+    let r := stepOp histR Gen.schema acc.1 op
     match op with
     | .clear => (r.1, false)
-    | .encode _ _ => (r.1, acc.2 || !r.2)
-    | .bytes => (r.1, acc.2)) (fresh, false)
+    | .encode _ _ => (r.1, acc.2 || !r.2.ok)
+    | .raw _ _ => (r.1, acc.2 || !r.2.ok)
+    | .bytes => (r.1, acc.2)) (fresh .ttlv, false)
 
 def encReuse (arg : String) : String :=
   match (splitSemi arg).mapM parseOp with
   | none => "bad-op"
   | some ops =>
     let r := runHistory ops
-    if r.2 then "panic" else "ok " ++ (let h := hexOfBytes r.1.bytes; if h.isEmpty then "-" else h)
+    if r.2 then "panic" else "ok " ++ renderHex r.1.buf.vis
 
 def parseSched (s : String) : Option (List Nat) :=
   if s = "-" then some [] else (s.splitOn ",").mapM (·.toNat?)
@@ -112,6 +308,7 @@ end CacheD
 def handleCache (cmd arg : String) : Option String :=
   match cmd with
   | "enc.reuse" => some (CacheD.encReuse arg)
+  | "enc.hist" => some (CacheD.encHist arg)
   | "cache.run" => some (CacheD.cacheRun arg)
   | _ => none
 
